@@ -2,7 +2,7 @@
 From Coq Require Import ZArith List Bool String.
 From VD Require Import Base.Bytes Base.Text Base.Sexp Base.PixFmt Base.Struct.
 From VD Require Import Model.ClientMsgs Model.Keys Model.Pointer Model.ClientOps Spec.C2S.
-From VD Require Import Model.Server Extract.DispatchRfb.
+From VD Require Import Model.Server Extract.DispatchRfb Extract.DispatchCmd.
 Import ListNotations.
 Open Scope Z_scope.
 
@@ -88,4 +88,7 @@ Definition dispatch (name : list Z) (a : sexp) : sexp :=
   else if name_is name "rfb_run" then d_rfb_run a
   else if name_is name "rfb_script" then d_rfb_script a
   else if name_is name "screen_ops" then d_screen_ops a
+  else if name_is name "compile" then d_compile a
+  else if name_is name "shlex" then d_shlex a
+  else if name_is name "quote" then d_quote a
   else sErr.
